@@ -734,7 +734,10 @@ class HomeKitConnection:
 
         # FIXME: Should drop the connection if can't parse the event?
 
-        decoded = event.body.decode("utf-8")
+        try:
+            decoded = event.body.decode("utf-8")
+        except UnicodeDecodeError:
+            return
         if not decoded:
             return
 
